@@ -31,7 +31,7 @@ Class Tols {N : NumOps} := {
   t_cyl_base_r : F; t_cyl_base_a : F;      (* np.isclose(abs(z), z0, rtol, atol) *)
   t_seg_close_r : F; t_seg_close_a : F;    (* close() of field_BH_cylinder_segment *)
   t_seg_r_lo : F; t_seg_r_hi : F; t_seg_z_lo : F; t_seg_z_hi : F;   (* the four 1e-14 margins *)
-  t_cir_sing : F                           (* abs(r - r0) < 1e-15 * r0 of BHJM_circle *)
+  t_cir_sing : F; t_cir_sing_z : F         (* abs(r - r0) < c * r0 and abs(z) < c' * r0 of BHJM_circle (commit 588c868) *)
 }.
 
 Declare Scope num_scope.
@@ -73,6 +73,13 @@ Definition fsignF (x : F) : F := fofZ (fsign x).
 (* cyl_field_to_cart(phi, Br, Bphi) applied to the first two components *)
 Definition cyl_to_cart (c s : F) (v : vec) : vec :=
   let '(vr, vphi, vz) := v in (vr * c - vphi * s, vr * s + vphi * c, vz).
+
+(* ------------------------------------------------------------------ getBH_level1: BH = orientation.apply(field_func(...))
+   the orientation acts on the local output as a 3x3 matrix (rows r1 r2 r3); the observer transformation happens
+   BEFORE the wrapper and only selects the local row *)
+Definition mat : Type := (vec * vec * vec)%type.
+Definition mapply (m : mat) (v : vec) : vec := let '(r1, r2, r3) := m in (vdot r1 v, vdot r2 v, vdot r3 v).
+Definition level1 (m : mat) (local : fld -> vec) (f : fld) : vec := mapply m (local f).
 
 (* ------------------------------------------------------------------ Cuboid *)
 Record cub_row := { cu_obs : vec; cu_dim : vec; cu_pol : vec }.
@@ -386,7 +393,7 @@ Record cir_row := { ci_r : F; ci_c : F; ci_s : F; ci_z : F; ci_d : F; ci_i : F }
 Definition cir_r0 (r : cir_row) : F := fabs (ci_d r / two).
 Definition cir_mask1 (r : cir_row) : bool := cir_r0 r =? f0.
 Definition cir_mask2 (r : cir_row) : bool :=
-  (fabs (ci_r r - cir_r0 r) <? t_cir_sing * cir_r0 r) && (ci_z r =? f0).
+  (fabs (ci_r r - cir_r0 r) <? t_cir_sing * cir_r0 r) && (fabs (ci_z r) <? t_cir_sing_z * cir_r0 r).
 Definition cir_mask3 (r : cir_row) : bool := ci_r r =? f0.
 Definition cir_general (r : cir_row) : bool := negb ((cir_mask1 r || cir_mask2 r) || cir_mask3 r).
 
